@@ -6,6 +6,7 @@ Open Scope Z_scope.
 
 Record procobs := mkProcObs {
   po_from_string : bool;                   (* input given as text with from_string=True *)
+  po_noinfer : bool;                       (* GTF input, disable_infer_genes and disable_infer_transcripts both set *)
   po_exit_ok : bool;                       (* the child finished without an exception *)
   po_result : result tables;               (* its output database *)
   po_solitary : result tables }.           (* the same import run alone with a private temp dir *)
@@ -32,7 +33,9 @@ Fixpoint proj (p : nat) (es : list ev) : list bool :=      (* true = create, fal
 (* Create/Unlink skeleton of the model's programs *)
 Fixpoint skeleton (prog : list act) : list bool :=
   match prog with [] => [] | Create :: r => true :: skeleton r | Unlink :: r => false :: skeleton r | _ :: r => skeleton r end.
-Definition prog_of (from_string : bool) : list act := if from_string then from_string_prog [] [] else import_prog [].
+Definition prog_of (from_string noinfer : bool) : list act :=
+  if noinfer then (if from_string then from_string_noinfer_prog [] else noinfer_prog)
+  else if from_string then from_string_prog [] [] else import_prog [].
 
 Fixpoint first_created (p : nat) (es : list ev) : option str :=
   match es with
@@ -48,7 +51,7 @@ Definition verdict (c : case) : Z :=
   | CRun procs trace leftover =>
     let ip := indexed 0 procs in
     let results_ok := forallb (fun q => po_exit_ok (snd q) && result_same (po_result (snd q)) (po_solitary (snd q))) ip in
-    let programs_ok := forallb (fun q => list_eqb Bool.eqb (proj (fst q) trace) (skeleton (prog_of (po_from_string (snd q))))) ip in
+    let programs_ok := forallb (fun q => list_eqb Bool.eqb (proj (fst q) trace) (skeleton (prog_of (po_from_string (snd q)) (po_noinfer (snd q))))) ip in
     match replay [] trace with
     | None => V_BAD                                  (* a name created while in use, or removed by somebody else *)
     | Some d =>
